@@ -195,7 +195,7 @@ theorem handleMessage_cases (W : WriterSafe) (cfg : Cfg) (hcfg : CfgWF cfg) (tr 
           obtain ⟨w0, hnew, hsect, hqd⟩ := hn
           rw [hnew]
           simp only
-          obtain ⟨⟨hp1, hp2⟩, hne⟩ := key r0 hr0 (be16 r0.octets 0) opc rdv w0 (W.new_I _ _ _ hnew) hsect hqd
+          obtain ⟨⟨hp1, hp2⟩, hne⟩ := key r0 hr0 (be16 r0.octets 0) opc rdv w0 (W.new_I _ _ _ (by decide) hnew) hsect hqd
           have hne' := hne.h w0
           split
           · rename_i w1 heq
